@@ -30,7 +30,8 @@ func DecodeBitmap(img *bitmap.Image) (*QRCode, error) {
 
 	// mask
 	used := usedList[version]
-	binimg.Mask(binimg, used, maskList[mask])
+	// unmask into a private copy: the bitmap of the caller is left untouched.
+	binimg = new(internalbitmap.Image).Mask(binimg, used, maskList[mask])
 
 	var buf bitstream.Buffer
 	dy := -1
